@@ -541,3 +541,75 @@ Print Assumptions C17_wiring_StripeMeasures_population_proportion_stderrs.
 
 End Wiring_C17.
 (* ---- WIRING-APPENDIX:END ---- *)
+
+(*BEGIN GenAgreeCube_C17*)
+(* ------------------------------------------------------------------------------------ *)
+(* SOURCE TEXT of src/cr/cube/cube.py.  Gen/CubeSrc.v is regenerated on every check by
+   harness/translate/x_cube.py (shallow translation: every member of CubeSet / Cube / _Measures / the
+   _BaseMeasure family, inheritance flattened, as a Gallina function over the Python-semantics combinators
+   of Base/PyList.v + Base/PyJson.v + Model/PyCube.v; [X] = what cube.py calls in other modules -
+   Dimensions.from_dicts, json.loads - as parameters; `self.<member>` = the generated function of that
+   member).  For ALL inputs each generated function IS the model definition the theorems above are about;
+   a statement `match src_f, src_g with Some f, Some g => forall .., g X c = POk v -> ..` reads: whenever
+   the member g of the same object evaluates to v.  [None] = the member is outside the translator's
+   whitelist (then only the correspondence ties it). *)
+From CC Require Proofs.GenAgreeCubeLib Proofs.GenAgreeCubeBase Proofs.GenAgreeCubePopulation Proofs.GenAgreeCubeSet.
+Section GenAgreeCube_C17.   (* scopes and imports below end with the section *)
+Import Coq.Lists.List Coq.ZArith.ZArith Coq.QArith.QArith Coq.Strings.String Coq.Bool.Bool CC.Base.XQ
+       CC.Base.PyList CC.Base.PyJson CC.Spec.Survey CC.Model.CubeCounts CC.Model.DimType CC.Model.Population
+       CC.Model.Partition CC.Model.PyCube CC.Gen.CubeSrc CC.Proofs.GenAgreeCubeLib CC.Proofs.GenAgreeCubeBase CC.Proofs.GenAgreeCubePopulation CC.Proofs.GenAgreeCubeSet.
+Import Coq.Lists.List.ListNotations.
+Local Close Scope Q_scope.
+Local Open Scope Z_scope.
+Local Open Scope string_scope.
+
+Theorem C17_gen_cube_Measures___init__ :
+  match src__Measures___init__ with
+  | Some f => forall resp dims idx, f resp dims idx = mkPyMeasures resp dims idx
+  | None => True end.
+Proof. exact gen_cube_Measures___init__. Qed.
+Print Assumptions C17_gen_cube_Measures___init__.
+
+Theorem C17_gen_cube_Cube__cube_response :
+  match src_Cube__cube_response with
+  | Some f => forall X arg tr idx pop mask,
+      f X (mkPyCube arg tr idx pop mask) = parsed_response X arg
+  | None => True end.
+Proof. exact gen_cube_Cube__cube_response. Qed.
+Print Assumptions C17_gen_cube_Cube__cube_response.
+
+Theorem C17_gen_cube_Cube__measures :
+  match src_Cube__measures, src_Cube__cube_response, src_Cube__all_dimensions with
+  | Some f, Some g1, Some g2 => forall X c resp dims,
+      g1 X c = POk resp -> g2 X c = POk dims ->
+      f X c = POk (mkPyMeasures resp dims (pc_cube_idx_arg c))
+  | _, _, _ => True end.
+Proof. exact gen_cube_Cube__measures. Qed.
+Print Assumptions C17_gen_cube_Cube__measures.
+
+Theorem C17_gen_cube_Measures_population_fraction :
+  match src__Measures_population_fraction with
+  | Some f => forall X pre r dims idx, lacks_keys pre filter_keys ->
+      outcome_of (f X (mkPyMeasures (fshape_response pre r) dims idx)) = pop_fraction r
+  | None => True end.
+Proof. exact gen_cube_Measures_population_fraction. Qed.
+Print Assumptions C17_gen_cube_Measures_population_fraction.
+
+Theorem C17_gen_cube_Cube_population_fraction :
+  match src_Cube_population_fraction, src_Cube__all_dimensions with
+  | Some f, Some g => forall X pre r tr idx pop mask dims, lacks_keys pre filter_keys ->
+      g X (mkPyCube (fshape_response pre r) tr idx pop mask) = POk dims ->
+      outcome_of (f X (mkPyCube (fshape_response pre r) tr idx pop mask)) = pop_fraction r
+  | _, _ => True end.
+Proof. exact gen_cube_Cube_population_fraction. Qed.
+Print Assumptions C17_gen_cube_Cube_population_fraction.
+
+Theorem C17_gen_cube_CubeSet_population_fraction :
+  match src_CubeSet_population_fraction, src_CubeSet__cubes, src_Cube_population_fraction with
+  | Some f, Some g1, Some g2 => forall X s c0 rest, g1 X s = POk (c0 :: rest) -> f X s = g2 X c0
+  | _, _, _ => True end.
+Proof. exact gen_cube_CubeSet_population_fraction. Qed.
+Print Assumptions C17_gen_cube_CubeSet_population_fraction.
+
+End GenAgreeCube_C17.
+(*END GenAgreeCube_C17*)
